@@ -325,6 +325,7 @@ def run(ctx):
     # ------------------------------------------------------------------ R3
     ctx.rule("R3", "rows and columns converted with the matching basis' conventions", "a dropped permutation/sign, signs applied before the rows are moved, or a wrong direction returns a matrix whose rows/columns belong to other functions")
     _check_overlap_tail(ctx, co, b0, b1)
+    _seg(ctx)
 
     # ------------------------------------------------------------------ R4
     ctx.rule("R4", "bases are segmented before angmoms[0]/kinds[0] are used", "a generalized contraction would be computed with its first angular momentum only")
@@ -451,6 +452,13 @@ def run(ctx):
         if not nskip:
             ctx.ok("R7", f"{len(stores)} block store(s): guarded only by the screening comparison / the one-basis symmetry flag; no continue/break at shell level; screening quantities assigned once", f"{om.relpath}:{inner_l.lineno}")
         ctx.floor("R7", len(stores), 1, "block stores")
+
+
+def _seg(ctx):
+    from .segpred import check_segmentation
+
+    ctx.rule("R8", "the segmentation applied before the integrals keeps every contraction in the order of the basis (evaluated)", "rows and columns of the matrix no longer follow the basis functions of the given basis")
+    check_segmentation(ctx, "R8", "R8")
 
 
 def _check_overlap_tail(ctx, co, b0, b1):
